@@ -16,10 +16,11 @@
      move_legal hands over the whole GroupBase object (elements are not re-filed);
    * _unknown is not transferred; present bits of the source are not touched;
    * move_legal leaves null pointers in the source's _fields / _groups and clears its _pos;
-   * move_legal dereferences _groups.find(fnum) without testing for end()  (finding: a decoded,
-     i.e. shallow, message holding a group count field "0" has no such entry);
-   * copy_legal dereferences to->find_group(fnum) without a null test (finding: the deep
-     constructor of the FIX44 header does not pre-create NoHops).
+   * two defects found with this check have been repaired in /repo and the model follows the
+     repaired code: move_legal now tests _groups.find(fnum) against end() (1eb9e00: a decoded
+     message holding a group count field "0" has no such entry), copy_legal now obtains the
+     target's group with find_add_group (198b3ea: the deep constructor of the FIX44 header does
+     not pre-create NoHops).
    Outside this model (and outside the generators): replacing a constructor-owned header field
    (BeginString 8, ...) through add_field frees the object the header's dedicated pointer
    (get_begin_string()) refers to; Message::encode then reads freed memory (observed under ASan). *)
@@ -30,8 +31,8 @@ Local Open Scope N_scope.
 
 (* memory-error sites of these three functions (continuing the numbering of Codec/Meta.v) *)
 Definition site_null_field : N := 20.     (* get_field(fnum) == nullptr -> copy();  _fields.find(fnum) == end() -> second *)
-Definition site_target_group : N := 21.   (* copy_legal: to->find_group(fnum) == nullptr, gb1->create_group(true) *)
-Definition site_groups_end : N := 22.     (* move_legal: _groups.find(fnum) == end(), gitr->second read and written *)
+Definition site_target_group : N := 21.   (* (before 198b3ea) copy_legal: to->find_group(fnum) == nullptr, gb1->create_group(true) *)
+Definition site_groups_end : N := 22.     (* (before 1eb9e00) move_legal: _groups.find(fnum) == end(), gitr->second read and written *)
 Definition site_null_moved : N := 23.     (* a null GroupBase pointer handed to the target (model limit, see move_step) *)
 Definition site_invalid_metadata : N := 24. (* clone: _ctx._bme.find_ref(_msgType) throws InvalidMetadata (no such
                                                constructor in Meta.exc; unreachable for objects made by the ctx) *)
@@ -79,18 +80,18 @@ Fixpoint copy_elems (sg : gmeta) (f : N) (cs : list elem_copier) (st : N * mbase
       copy_elems sg f r (fst st + n, group_add (snd st) f grc))
   end.
 
-(* GroupBase *gb; if (pp._field_traits & group && (gb = find_group(pp._fnum))) { gb1 = to->find_group(..); for ... } *)
+(* GroupBase *gb; if (pp._field_traits & group && (gb = find_group(pp._fnum)))
+   { GroupBase *gb1(to->find_add_group(pp._fnum)); for ... }
+   (since /repo 198b3ea: find_add_group, "not every deep constructor creates all of its groups";
+   before that fix it was to->find_group and a null gb1 was dereferenced -- FIX44 header NoHops).
+   Meta.find_add_group: the group object is created through the target's create_nested_group when
+   missing (a null result is passed to add_group: memory error), untouched when present. *)
 Definition copy_group (gcopy : list (N * list elem_copier)) (pp : trait) (st : N * mbase) : res (N * mbase) :=
   let f := t_fnum pp in
   if t_group pp then
     match map_find f gcopy with
     | None => Ok st                              (* find_group(fnum) == nullptr *)
-    | Some [] => Ok st                           (* no element: gb1 is never dereferenced *)
-    | Some cs =>
-        match map_find f (mb_groups (snd st)), find_sub (mb_subs (snd st)) f with
-        | Some _, Some sg => copy_elems sg f cs st
-        | _, _ => OOB site_target_group          (* gb1 == nullptr *)
-        end
+    | Some cs => bind (find_add_group (snd st) f) (fun r => copy_elems (snd r) f cs (fst st, fst r))
     end
   else Ok st.
 
@@ -140,14 +141,17 @@ Record mstate := mkMS {
 }.
 
 (* if (pp._field_traits & group)
-   { auto gitr(_groups.find(fnum)); GroupBase *gb1(to->find_group(fnum));
-     if (gb1) delete to->replace(fnum, gitr->second); else *to += gitr->second;
-     gitr->second = nullptr; } *)
+   { auto gitr(_groups.find(fnum));
+     if (gitr != _groups.end())      -- since /repo 1eb9e00: "a count of 0 has no group object"
+     { GroupBase *gb1(to->find_group(fnum));
+       if (gb1) delete to->replace(fnum, gitr->second); else *to += gitr->second;
+       gitr->second = nullptr; } }
+   (before that fix _groups.end() was dereferenced: a decoded message with "NoX=0") *)
 Definition move_group (pp : trait) (st : mstate) : res mstate :=
   let f := t_fnum pp in
   if t_group pp then
     match map_find f (ms_groups st) with
-    | None => OOB site_groups_end                (* gitr == _groups.end() *)
+    | None => Ok st                              (* gitr == _groups.end(): nothing to hand over *)
     | Some None => OOB site_null_moved           (* a null GroupBase pointer would be stored in / added to the target:
                                                     not representable in mbase; unreachable when the trait table
                                                     has unique tags (each tag is visited once) *)
@@ -198,26 +202,33 @@ Definition clone (c : ctx) (m : message) : res message :=
     Ok (mkMsg (m_type t) (snd rh) (snd rb) (snd rt)))))
   end.
 
-(* what the harness does for COPY / MOVE: a fresh deep message of the same type, then body,
+(* what the harness does for COPY / MOVE (SCOPY / SMOVE): a fresh deep (shallow) message of the same type, then body,
    header, trailer in that order; results: the three counts and the target (and the husks) *)
-Definition copy_msg (c : ctx) (m : message) : res (N * N * N * message) :=
+Definition copy_msg_to (deep : bool) (c : ctx) (m : message) : res (N * N * N * message) :=
   match find_msg (c_msgs c) (m_type m) with
   | None => OOB site_invalid_metadata
   | Some md =>
-    let t := mk_message c md true in
+    let t := mk_message c md deep in
     bind (copy_legal false (m_body m) (m_body t)) (fun rb =>
     bind (copy_legal false (m_hdr m) (m_hdr t)) (fun rh =>
     bind (copy_legal false (m_trl m) (m_trl t)) (fun rt =>
     Ok (fst rb, fst rh, fst rt, mkMsg (m_type t) (snd rh) (snd rb) (snd rt)))))
   end.
 
-Definition move_msg (c : ctx) (m : message) : res (N * N * N * message * (husk * husk * husk)) :=
+Definition copy_msg := copy_msg_to true.
+
+(* deep = false: a shallow-constructed target (bme->_create._do(false)): its body has no group
+   objects (header and trailer are always deep), move_legal then adds the source's group objects
+   (add_group of the moved GroupBase) instead of replacing the pre-created ones *)
+Definition move_msg_to (deep : bool) (c : ctx) (m : message) : res (N * N * N * message * (husk * husk * husk)) :=
   match find_msg (c_msgs c) (m_type m) with
   | None => OOB site_invalid_metadata
   | Some md =>
-    let t := mk_message c md true in
+    let t := mk_message c md deep in
     bind (move_legal false (m_body m) (m_body t)) (fun '(nb, tb, kb) =>
     bind (move_legal false (m_hdr m) (m_hdr t)) (fun '(nh, th, kh) =>
     bind (move_legal false (m_trl m) (m_trl t)) (fun '(nt, ttr, kt) =>
     Ok (nb, nh, nt, mkMsg (m_type t) th tb ttr, (kh, kb, kt)))))
   end.
+
+Definition move_msg := move_msg_to true.
